@@ -242,7 +242,7 @@ def _seq_case(rng, op=None, clean=False):
         sps = sl.steps_per_quarter_to_steps_per_second(res, qpm_eff)
     big = rng.random() < 0.15
     T = lambda: _rand_time(rng, sps, big)     # noqa
-    neg = (not clean) and rng.random() < 0.12
+    neg = (not clean) and rng.random() < 0.2
     notes = []
     ninstr = rng.randint(1, 3)
     for _ in range(rng.randint(0, 6)):
@@ -354,7 +354,7 @@ def corpus():
 
 def cases(rng, tier, n=None):
     thorough = tier == 'thorough'
-    nf, nr, ns, nq = (40000, 8000, 4000, 12000) if thorough else (600, 160, 120, 360)
+    nf, nr, ns, nq = (30000, 6000, 3000, 9000) if thorough else (500, 140, 100, 300)
     if n is not None:
         nf, nr, ns, nq = n, n // 3, n // 4, n // 2
     out = []
@@ -740,17 +740,35 @@ def _near_boundary(p):
     return min(fr, 1 - fr) <= Fraction(1, 2 ** 40) * (p + 1)
 
 
+_STATS = {'float_cases_near_boundary': 0, 'float_cases_elsewhere': 0, 'sequence_errors': {}, 'sequences_accepted': 0,
+          'sequences_with_zero_length_bump': 0, 'sequences_total_from_total_time': 0}
+
+
+def extra_evidence():
+    return {'input_distribution': _STATS}
+
+
 def nontrivial(case, io):
     op, a = case['op'], case['input']
     F = Fraction
-    if op == 'q2s':
-        return any(_near_boundary(F(uncode(c)) * F(uncode(a[1]))) for c in a[0])
-    if op in ('q2s_rel', 'stretch'):
-        return _near_boundary(F(uncode(a[0])) * F(a[1]) * F(uncode(a[2])) / 60)
+    if op in ('q2s', 'q2s_rel', 'stretch'):
+        if op == 'q2s':
+            nb = any(_near_boundary(F(uncode(c)) * F(uncode(a[1]))) for c in a[0])
+        else:
+            nb = _near_boundary(F(uncode(a[0])) * F(a[1]) * F(uncode(a[2])) / 60)
+        _STATS['float_cases_near_boundary' if nb else 'float_cases_elsewhere'] += 1
+        return nb
     if op == 'fdec':
         return True
     if io[0] == 'EXC':
+        _STATS['sequence_errors'][io[1]] = _STATS['sequence_errors'].get(io[1], 0) + 1
         return True
+    _STATS['sequences_accepted'] += 1
+    notes = io[1][0][1]
+    if any(n[8] == n[7] + 1 for n in notes):
+        _STATS['sequences_with_zero_length_bump'] += 1
+    if not notes or io[1][9] > max(n[8] for n in notes):
+        _STATS['sequences_total_from_total_time'] += 1
     d = a['desc']
     return bool(d['notes'] or d['ccs'] or d['texts'])
 
